@@ -194,7 +194,7 @@ func buildJSONWriter(p *Program, o *JSONObject) {
 		return
 	}
 	out := ps[0]
-	list := fd.Body.List
+	list := mergeCommaOk(info, fd.Body.List)
 	// prelude: up to `_ = writeProperty`
 	var writeProperty, commaObj types.Object
 	i := 0
@@ -549,7 +549,7 @@ func buildJSONReader(p *Program, o *JSONObject) {
 		return
 	}
 	m := ps[0]
-	list := fd.Body.List
+	list := mergeCommaOk(info, fd.Body.List)
 	outerField := func(e ast.Expr) *types.Var {
 		// outermost field of the receiver in a selector chain
 		e = ast.Unparen(e)
